@@ -32,6 +32,7 @@ import CtyModel.Lemmas.d14bRef
 import CtyModel.Lemmas.d14bJoin
 import CtyModel.Lemmas.d14bDuration
 import CtyModel.Lemmas.d14bTimestamp
+import CtyModel.Lemmas.d14bRegexAll
 import CtyModel.Props.C02
 namespace CtyModel
 namespace C14
@@ -1342,6 +1343,15 @@ theorem timestamp_corner_cases :
         fun s => (goParseRFC3339 s.toList).isNone) = true ∧
     (goParseRFC3339 "2021-06-13T12:07:09-03:30".toList = some ⟨2021, 6, 13, 0, 12, 7, 9, -12600⟩) := by
   decide
+
+open D14b in
+/-- **`regexall` never panics** under the same index-list law as `regex_never_panics`, asked of every
+match that `FindAllStringSubmatchIndex` reports: no slice or index expression is out of range, and the
+elements agree in type, so `cty.ListVal` does not panic either. -/
+theorem regexall_never_panics (L : Lib) (pat str : String)
+    (hk : ∀ names, L.regexCompile pat = some names → ∀ idxs ∈ L.regexFindAll pat str,
+      IdxOK str.utf8ByteSize names.length idxs) :
+    (regexAllImpl L [sv pat, sv str]).isPanic = false := regexAllImpl_no_panic L pat str hk
 
 -- d14b examples: the hypotheses are jointly satisfiable, and the functions compute
 open D14b in
